@@ -327,11 +327,25 @@ async def _accepted_socket_backpressure() -> dict[str, Any]:
                 filled += raw.send(b"k" * 65536)
             except BlockingIOError:
                 break
+        # (the kernel may still move bytes towards the peer's window: fill until it takes nothing more for a while)
+        quiet = 0
+        for _ in range(400):
+            await asyncio.sleep(0.005)
+            try:
+                filled += raw.send(b"k" * 65536)
+                quiet = 0
+            except BlockingIOError:
+                quiet += 1
+                if quiet >= 6:
+                    break
         obs["kernel_buffer_filled"] = filled > 0
         t = asyncio.ensure_future(stream.send_all(b"s" * 512))
         for _ in range(30):
             await asyncio.sleep(0.002)
-        obs["small_send_suspended_while_the_peer_does_not_read"] = not t.done()
+        # either the send is still suspended, or the kernel found room after all and took the bytes: what may never happen is a
+        # send that has returned while its bytes sit in the transport's own buffer
+        left_behind = harness.asyncio_transport_of(stream).get_write_buffer_size() if t.done() else 0
+        obs["nothing_left_in_user_space_when_the_small_send_returned"] = left_behind == 0
         total = filled + 512
         n = 0
         for _ in range(20000):
